@@ -81,6 +81,8 @@ theorem c13_t_findLoop (val pf : List Nat) (S : List Int) (hl : val.length < 214
   | nil => intro i cur _ _ _ _; simp [T.findSubstring_loop0, findLoop, ints]
   | cons b rest ih =>
     intro i cur hcur hi hok hdone
+    have hi' : i + 1 + rest.length < 4611686018427387904 := by simp only [List.length_cons] at hi; omega
+    have hi2 : i + 1 < 9223372036854775807 := by omega
     have hcons : ints (b :: rest) = (b : Int) :: ints rest := by simp [ints]
     rw [hcons, T.findSubstring_loop0]
     simp only [findLoopOK, findLoopDone, kmpStepOK, stepDone, Bool.and_eq_true, decide_eq_true_eq] at hok hdone
@@ -93,8 +95,7 @@ theorem c13_t_findLoop (val pf : List Nat) (S : List Int) (hl : val.length < 214
     have hlen : len (ints val) = (val.length : Int) := len_ints val
     have hwl : wrapI32 (val.length : Int) = (val.length : Int) := by unfold wrapI32; omega
     have hw1 : wrapI32 ((c : Int) + 1) = ((c + 1 : Nat) : Int) := by unfold wrapI32; omega
-    have hwi : wrapI64 ((i : Int) + 1) = ((i + 1 : Nat) : Int) := by unfold wrapI64; omega
-    simp only [List.length_cons] at hi
+    have hwi : wrapI64 ((i : Int) + 1) = ((i + 1 : Nat) : Int) := by clear hi hi' hrest hdrest; unfold wrapI64; omega
     by_cases hb : b = val[c]
     · have hb' : (b : Int) = (val[c] : Int) := by omega
       simp only [if_pos hb, if_pos hb', hw1, hlen, hwl, hwi] at hrest hdrest ⊢
@@ -103,14 +104,14 @@ theorem c13_t_findLoop (val pf : List Nat) (S : List Int) (hl : val.length < 214
         simp only [if_pos he, if_pos he']
       · have he' : ¬ (((c + 1 : Nat) : Int) = (val.length : Int)) := by omega
         simp only [if_neg he, if_neg he'] at hrest hdrest ⊢
-        have := ih (i + 1) (c + 1) (by omega) (by omega) hrest hdrest
+        have := ih (i + 1) (c + 1) (Nat.lt_of_le_of_ne (Nat.succ_le_of_lt hfin) he) hi' hrest hdrest
         simpa using this
     · have hb' : ¬ ((b : Int) = (val[c] : Int)) := by omega
       simp only [if_neg hb, if_neg hb', hlen, hwl, hwi] at hrest hdrest ⊢
       have he : ¬ (c = val.length) := by omega
       have he' : ¬ ((c : Int) = (val.length : Int)) := by omega
       simp only [if_neg he, if_neg he'] at hrest hdrest ⊢
-      have := ih (i + 1) c (by omega) (by omega) hrest hdrest
+      have := ih (i + 1) c hfin hi' hrest hdrest
       simpa using this
 
 /-- the fall-back loops of a search with a proper prefix-function table end by their condition -/
